@@ -787,6 +787,14 @@ hwloc__xml_import_object(hwloc_topology_t topology,
     state->global->close_child(&childstate);
   }
 
+  if (!parent && ignored) {
+    /* the root object is owned by the topology, it cannot be ignored: the document is invalid */
+    if (hwloc__xml_verbose())
+      fprintf(stderr, "%s: invalid root object attributes\n",
+              state->global->msgprefix);
+    goto error_with_object;
+  }
+
   if (parent && obj->type == HWLOC_OBJ_MACHINE) {
     if (hwloc__xml_verbose())
       fprintf(stderr, "%s: Machine object cannot be a child object\n",
